@@ -83,6 +83,8 @@ func run(ctx *core.Ctx) error {
 	cases = append(cases, jbig2Cases(ctx)...)
 	cases = append(cases, globalsCases()...)
 	cases = append(cases, jpegCases(ctx)...)
+	cases = append(cases, jbig2SymbolCases(ctx)...)
+	cases = append(cases, budgetCases(ctx)...)
 	lz := lzwStateCases(ctx)
 	lzFrom := len(cases)
 	cases = append(cases, lz...)
